@@ -285,8 +285,9 @@ def run(ctx):
                           "replay": {"mode": "syntax", "expect": "fail", "src": v["bad_src"], "cfg": list(v["cfg"])}}
             elif v["status"] == "inconclusive":
                 ctx.inconclusive += 1
-            elif v["status"] == "twin_failed":
-                raise RuntimeError("C11 twin failed: " + v["twin"].first_error())
+            elif v["status"] == "twin_failed" and out[k] is None:
+                out[k] = {"what": "C11: get_value<%s>(mag<2>()) (the positive twin of a negative probe) does not compile: %s" % (c["T"], v["twin"].first_error()),
+                          "replay": {"mode": "syntax", "expect": "ok", "src": v["twin_src"], "cfg": list(v["cfg"])}}
         return out
 
     g = grid()
